@@ -100,7 +100,8 @@ def corr_static(ctx, n, dis, dist, samples):
         ops.append(dict(op="fourier_gen", X=X, spec=fbits(spec), z1=fbits(g._z_1), z2=fbits(g._z_2), pos=fbits(pos), **base))
         ops.append(dict(op="fourier_iso", dim=dim, X=X, Q=fbits(Q), anis=fbits(anis), pos=fbits(pos)))
         ops.append(dict(op="fourier_gen", X=X, spec=fbits(spec), z1=fbits(g._z_1), z2=fbits(g._z_2), pos=fbits(pos),
-                        Q=fbits(Q), **base))
+                        angles=fbits(np.asarray(m.angles, dtype=float)), **base))
+        ops.append(dict(op="fourier_derot", dim=dim, angles=fbits(np.asarray(m.angles, dtype=float))))
         cases.append((case, g, m, srf, pos, mno, k_norm))
         dist[f"dim{dim}"] = dist.get(f"dim{dim}", 0) + 1
         dist["rotated" if any(a != 0 for a in angles) else "unrotated"] = dist.get("rotated" if any(a != 0 for a in angles) else "unrotated", 0) + 1
@@ -108,13 +109,14 @@ def corr_static(ctx, n, dis, dist, samples):
     res = run_driver(ops)
     ev = 0
     for k, (case, g, m, srf, pos, mno, k_norm) in enumerate(cases):
-        r_grid, r_sf, r_gen, r_iso, r_srf = res[5 * k: 5 * k + 5]
-        ev += 5
+        r_grid, r_sf, r_gen, r_iso, r_srf, r_rot = res[6 * k: 6 * k + 6]
+        ev += 6
 
         def bad(what, **kw):
             dis.append(dict(what=what, case=case, **kw))
-        if any(isinstance(r, dict) and "error" in r for r in (r_grid, r_sf, r_gen, r_iso, r_srf)):
-            bad("fourier:driver-error", detail=str([r for r in (r_grid, r_sf, r_gen, r_iso, r_srf) if isinstance(r, dict) and "error" in r][:1]))
+        allr = (r_grid, r_sf, r_gen, r_iso, r_srf, r_rot)
+        if any(isinstance(r, dict) and "error" in r for r in allr):
+            bad("fourier:driver-error", detail=str([r for r in allr if isinstance(r, dict) and "error" in r][:1]))
             continue
         # mode grid: bit for bit
         if r_grid["lens"] != [int(v) for v in g.mode_no]:
@@ -134,6 +136,12 @@ def corr_static(ctx, n, dis, dist, samples):
         real = g(pos, add_nugget=False)
         if not np.array_equal(unbits(r_gen), real):
             bad("fourier:gen(pos)", lean=unbits(r_gen).tolist(), real=real.tolist())
+        # derotation matrix and main axes (rows of the derotation)
+        rot = np.array([unbits(x) for x in r_rot]).reshape(m.dim, m.dim)
+        if not np.all(np.abs(rot - matrix_derotate(m.dim, m.angles)) <= 4e-16):
+            bad("fourier:matrix_derotate", lean=rot.tolist(), real=matrix_derotate(m.dim, m.angles).tolist())
+        if m.dim > 1 and not np.all(np.abs(rot - np.asarray(m.main_axes())) <= 4e-16):
+            bad("fourier:main_axes", lean=rot.tolist(), real=np.asarray(m.main_axes()).tolist())
         # isometrize and SRF output
         iso = m.isometrize(pos)
         if not close(np.array([unbits(x) for x in r_iso]), iso, 1e-13):
